@@ -7,6 +7,7 @@ complete set of public mutating methods of those types (classification table bel
 cross-checked against ``dir()`` of the running interpreter so that no public method is
 unclassified); ``ImmutableSandboxedEnvironment.is_safe_attribute`` is super() AND NOT
 modifies_known_mutable; filters and tests never mutate their arguments (engine E3).
+Also: the decision functions keep no state (no mutable default argument, no stores).  
 Not decided: mutation through callables the data itself provides.
 """
 
